@@ -292,3 +292,19 @@ def checkpoint_typestate(ctx: Ctx, rule: str, f: Func, effects=(), undos=(), reg
 
     return ctx.paths(rule, f, spec, step, (False, False, False), at_exit, instance=instance or f.qual, native=native,
                      assume=assume, env=env)
+
+
+# ----------------------------------------------------------------------------- wake-up not overtaken by cancellation (R12-g / R07-f)
+def waiter_guard(ctx: Ctx, rule: str, instance: str):
+    """in CancelScope._deliver_cancellation a task whose wake-up future has already completed (with a result *or* an exception)
+    is not cancelled: the wake-up - an item handed over, a readiness value or a child's error stored in the future - would be
+    replaced by the cancellation and lost"""
+    deliver = ctx.fn("CancelScope._deliver_cancellation", A)
+    cs = ctx.sites(deliver, "$T.cancel($*A)")
+    ctx.need(rule, deliver, "`task.cancel(...)` in _deliver_cancellation", len(cs), 1)
+    for call, env in cs:
+        t = u(env["T"])
+        w = ctx.sites(deliver, f"$W = {t}._fut_waiter")
+        wn = u(w[0][1]["W"]) if w else f"{t}._fut_waiter"
+        ctx.require_at(rule, deliver, call, [[f"not isinstance({wn}, asyncio.Future)"], [f"not {wn}.done()"]],
+                       instance=instance, what="task.cancel")
